@@ -1134,7 +1134,10 @@ def c14(run):
     chain = r.json_prints("CHAIN")
     if len(chain) != 1536:
         raise Machinery("GrpcMC enumerated %d chained cases, expected 1536" % len(chain))
-    cases = cases + chain
+    slow = r.json_prints("SLOW")
+    if len(slow) != 288:
+        raise Machinery("GrpcMC enumerated %d slow cases, expected 288" % len(slow))
+    cases = cases + chain + slow
     indir = os.path.join(run.scratch, "in")
     os.makedirs(indir, exist_ok=True)
     vlib.write_ndjson(os.path.join(indir, "grpc_cases.ndjson"), cases)
